@@ -35,6 +35,8 @@ struct ServerProfile {
     bool autoAck = true;        // answer <r/> with <a h/> at once
     bool autoRoster = true;     // answer roster get
     bool assignOtherJid = false;   // bind result carries another localpart/resource than asked for
+    bool mute = false;             // fully scripted mode: the server never reacts by itself, it only records
+    void set(const QString &key, const QString &value);   // change one field between connections
     QMap<QString, QString> quirks;   // misbehaviours, by topic (e.g. "scram" -> "wrong_v")
 
     static ServerProfile fromPlan(const Plan &);
